@@ -296,6 +296,47 @@ def shrink_candidates(case):
                 yield ("up", case[1], q)
 
 
+# ---------------------------------------------------------------- whole server: a route learned from a 2-octet-AS peer (receive side of the transition)
+def gen_recv(rng):
+    """a peer WITHOUT the 4-octet AS capability sends routes whose AS_PATH holds 4-octet members (AS_TRANS + AS4_PATH on the wire),
+    with no AGGREGATOR, one whose AS fits 2 octets, or a 4-octet one (AS_TRANS + AS4_AGGREGATOR)"""
+    routes = []
+    for pf in rng.sample(["10.1.0.0/24", "10.2.0.0/24", "10.3.0.0/16"], rng.choice([1, 2, 3])):
+        seq = [65001] + [rng.choice([400000, 70000, 65020, 4200000000, 23456]) for _ in range(rng.choice([1, 2, 3]))]
+        st = [rng.choice([300000, 64999, 7]) for _ in range(rng.choice([0, 0, 2]))]
+        agg = rng.choice([None, 65100, 100, 400000, 23456])
+        routes.append((pf, seq, sorted(set(st)), agg))
+    return {"routes": routes}
+
+
+def recv_line(c):
+    steps = ["(up a old)", "(up b)"]
+    for pf, seq, st, agg in c["routes"]:
+        toks = list(map(str, seq)) + (["s:" + ":".join(map(str, st))] if st else [])
+        steps.append("(upd a (a %s 0 (%s) - - 0 () - ()%s))" % (pf, " ".join(toks), (" agg=%d" % agg) if agg is not None else ""))
+    steps.append("(obs)")
+    return "(sim (global 65000 1.1.1.1 sync) (peers (a 10.0.0.1 65001) (b 10.0.0.2 65002)) (steps %s))" % " ".join(steps)
+
+
+def recv_oracle(c, out):
+    from checks import simlib
+    r = simlib.split_output(out)
+    if r is None or not r[0]:
+        return ("harness-error", "the scenario did not complete: " + out[:300])
+    o = r[0][-1]
+    for pf, seq, st, agg in c["routes"]:
+        want = "p[2:" + ".".join(map(str, seq)) + ((",1:" + ".".join(map(str, st))) if st else "") + "]"
+        ps = [p for p in o["rib"].get(pf, []) if p["src"] == "10.0.0.1"]
+        if not ps:
+            return ("route-from-2-octet-peer-missing", "%s sent by the 2-octet-AS peer is not in the Loc-RIB" % pf)
+        got = [x for x in ps[0]["attrs"].split(";") if x.startswith("p[")]
+        if got != [want]:
+            return ("as-path-not-reconstructed", "%s: sent AS_PATH %s (AGGREGATOR AS %s) through a 2-octet-AS session; the Loc-RIB holds %s" % (pf, want, agg, got))
+        if any(x in ("t17", "t18") for x in ps[0]["attrs"].split(";")):
+            return ("as4-attribute-kept", "%s: the learned route still carries AS4_PATH / AS4_AGGREGATOR: %s" % (pf, ps[0]["attrs"]))
+    return None
+
+
 def run(ctx):
     proof = core.coq_properties("C14")
     ctx.say("proof stage: ok=%s theorems=%d audit=%d (%.1fs)" % (proof["ok"], len(proof["theorems"]), len(proof["audit"]), proof.get("wall_s", 0)))
@@ -378,13 +419,18 @@ def run(ctx):
                                "case": line_of(c), "implementation": a, "model": b, "count_in_run": len(mism)},
                               what="model and implementation disagree", nofail=True)
 
+    # the receive side on a whole server: routes sent by a peer without the 4-octet AS capability (recvMessageloop's conversion)
+    rcases = [gen_recv(ctx.rng) for _ in range(ctx.scale(200, 2000))]
+    cov_r = core.differential(ctx, "c14", proof, rcases, recv_line, recv_oracle, model_applies=lambda c: False, nontrivial=lambda c: True,
+                              model_line_of=lambda c: "down ()", correspondence_name="recvMessageloop: AS_PATH / AS4_PATH / AGGREGATOR of a 2-octet-AS session as learned by a running server (oracle: the path that was sent)",
+                              impl_spec=("sim", True, ("-test.run", "TestSim", "-test.timeout", "0"), "SIM "), model_name="c14")
     distinct = len({l for c, l in zip(cases, lines) if nontrivial(c)})
-    hist = {}
+    hist = {"whole-server-receive-scenarios": len(rcases)}
     for c in cases:
         hist[c[0]] = hist.get(c[0], 0) + 1
     cov = core.proof_coverage(proof)
     cov.update({
-        "evaluations": len(cases), "distinct_nontrivial": distinct,
+        "evaluations": len(cases) + cov_r.get("evaluations", 0), "distinct_nontrivial": distinct + cov_r.get("distinct_nontrivial", 0),
         "rule": "generated AS_PATHs (leading confed run, SEQ/SET mix, boundary lengths 1/254/255, 2- and 4-octet members), independent (AS_PATH, AS4_PATH) pairs, aggregators; non-trivial = contains a 4-octet member (rt/down/agg) or a non-empty AS4_PATH (up); distinct by canonical input line",
         "samples": lines[:3] + lines[len(lines) // 2:len(lines) // 2 + 2],
         "traces_validated_against_impl": 0 if impl_out is None or model_out is None else len(cases),
